@@ -26,9 +26,30 @@ pub struct Verdict {
     pub undetermined: Option<String>,
 }
 
+/// Longest hold (in rounds) that, together with `drops` dropped packets,
+/// still cannot cause a legitimate retransmit exhaustion. Worst case all drops
+/// hit the transmissions (or ACKs) of the oldest unacknowledged segment: its
+/// first surviving transmission leaves `threshold*drops` passes after the
+/// retransmit count started, its ACK is back `2*hold + 1` rounds later (at the
+/// end of that round), and the abort fires at the egress of pass
+/// `threshold*(max+1)`: `threshold*drops + 2*hold + 1 <= threshold*(max+1) - 1`.
+pub fn max_hold_for(cfg: &Cfg, drops: u32) -> Option<u32> {
+    if drops >= cfg.retx_max {
+        return None;
+    }
+    let abort = cfg.retx_threshold * (cfg.retx_max + 1);
+    let used = cfg.retx_threshold * drops + 2;
+    if used > abort {
+        return None;
+    }
+    Some((abort - used) / 2)
+}
+
 pub fn in_envelope(scn: &Scn, drops: u32, max_hold: u32) -> bool {
-    let c = &scn.cfg;
-    drops < c.retx_max && max_hold < c.retx_threshold
+    match max_hold_for(&scn.cfg, drops) {
+        Some(d) => max_hold <= d,
+        None => false,
+    }
 }
 
 const SAFETY_CLASSES: [&str; 5] = ["corrupt", "phantom", "bytes-after-eof", "bytes-after-error", "write-count"];
